@@ -132,7 +132,23 @@ func VerifyFunction(L *Loaded, cs *ContractSet, fn *ssa.Function, opts VerifyOpt
 	}
 	if ctr != nil {
 		for _, c := range ctr.Requires {
-			st.assume(x.evalBool(env, c.Expr))
+			// a requires clause that no longer binds to the code (an
+			// identifier disappeared) is dropped, not assumed: fewer
+			// assumptions is sound, and the obligations stay decidable
+			var errs []string
+			env.errs = &errs
+			scratch := st.clone()
+			env.st = scratch
+			t := x.evalBool(env, c.Expr)
+			env.st = st
+			env.errs = &specErrs
+			if len(errs) > 0 {
+				x.note("stale requires dropped (does not bind to the code): %s", c.Src)
+				delete(x.notes, "spec-error: "+errs[0])
+				continue
+			}
+			st.pc = scratch.pc
+			st.assume(t)
 		}
 	}
 	for _, a := range cs.Axioms {
@@ -239,14 +255,50 @@ func capturedImmutable(fn *ssa.Function, fv *ssa.FreeVar) bool {
 	case *ssa.FreeVar:
 		return capturedImmutable(parent, b)
 	case *ssa.Alloc:
-		stores := 0
+		var mcs []*ssa.MakeClosure
+		for _, blk := range parent.Blocks {
+			for _, in := range blk.Instrs {
+				if mc, ok := in.(*ssa.MakeClosure); ok && mc.Fn == ssa.Value(fn) {
+					mcs = append(mcs, mc)
+				}
+			}
+		}
+		idxOf := func(in ssa.Instruction) int {
+			for i, x := range in.Block().Instrs {
+				if x == in {
+					return i
+				}
+			}
+			return -1
+		}
+		reach := func(from, to *ssa.BasicBlock) bool {
+			seen := map[*ssa.BasicBlock]bool{}
+			stack := append([]*ssa.BasicBlock(nil), from.Succs...)
+			for len(stack) > 0 {
+				n := stack[len(stack)-1]
+				stack = stack[:len(stack)-1]
+				if seen[n] {
+					continue
+				}
+				seen[n] = true
+				if n == to {
+					return true
+				}
+				stack = append(stack, n.Succs...)
+			}
+			return false
+		}
 		for _, blk := range parent.Blocks {
 			for _, in := range blk.Instrs {
 				switch in := in.(type) {
 				case *ssa.Store:
-					if in.Addr == ssa.Value(b) {
-						stores++
-						if _, isParam := in.Val.(*ssa.Parameter); !isParam {
+					if in.Addr != ssa.Value(b) {
+						continue
+					}
+					for _, mc := range mcs {
+						sb, mb := in.Block(), mc.Block()
+						before := sb.Dominates(mb) && (sb != mb || idxOf(in) < idxOf(mc))
+						if !before || reach(mb, sb) {
 							return false
 						}
 					}
@@ -267,7 +319,7 @@ func capturedImmutable(fn *ssa.Function, fv *ssa.FreeVar) bool {
 				}
 			}
 		}
-		return stores == 1
+		return len(mcs) > 0
 	}
 	return false
 }
